@@ -411,7 +411,7 @@ func c20RunStash(c *lib.Ctx) (int, int) {
 	defer os.RemoveAll(dir)
 	cases := c20StashSweep()
 	for i := c.Scale(150, 900); i > 0; i-- {
-		cases = append(cases, c20StashComposite(c, c.Rng))
+		cases = append(cases, c20StashComposite(c, c20Rng))
 	}
 	// the generator's forms must satisfy the model's guard
 	var reqs, guardReqs []string
@@ -722,7 +722,7 @@ func c20RunCfg(c *lib.Ctx) (int, int) {
 	for _, pv := range []c20Setting{{"*print-base*", "16"}, {"*print-radix*", "t"}, {"*print-length*", "2"}, {"*print-level*", "0"}, {"*print-lines*", "1"}, {"*print-escape*", "nil"}} {
 		cases = append(cases, c20CfgCase{Cell: c20CellName("setq-with/" + pv.Var + "=" + pv.Lit), Sessions: [][]c20Setting{append(append([]c20Setting{}, trio...), pv), {{"*repl-debug*", "t"}}}})
 	}
-	r := c.Rng
+	r := c20Rng
 	for i := c.Scale(14, 70); i > 0; i-- {
 		cs := c20CfgCase{}
 		for s := 1 + r.Intn(3); s > 0; s-- {
